@@ -160,7 +160,40 @@ async fn controller(
             let at = *at;
             waiters.push(tokio::spawn(async move {
                 tokio::time::sleep_until(start + ms(at)).await;
-                let r = fut.await;
+                // Odd waiters consume the future the way a supervisor loop
+                // does, through its FusedFuture interface: `select!` skips a
+                // branch that claims to be terminated, and gives up only when
+                // every branch does.
+                let r = if i % 2 == 1 {
+                    use futures::FutureExt;
+                    let mut fut = fut;
+                    let mut ticks = 0u32;
+                    loop {
+                        let mut tick = Box::pin(tokio::time::sleep(ms(250))).fuse();
+                        futures::select! {
+                            r = fut => break Some(r),
+                            _ = tick => {
+                                ticks += 1;
+                                // a supervisor that finds its shutdown
+                                // branch disabled has lost the result
+                                if futures::future::FusedFuture::is_terminated(&fut) {
+                                    break None;
+                                }
+                                if ticks > 4 * 3600 {
+                                    break None;
+                                }
+                            }
+                        }
+                    }
+                } else {
+                    Some(fut.await)
+                };
+                let Some(r) = r else {
+                    // b = 2: gave up, the future claimed to be terminated
+                    // without ever having delivered its result
+                    w.log(Ev::WaiterReleased, NOCONN, 0, i as u64, 2);
+                    return;
+                };
                 w.log(
                     Ev::WaiterReleased,
                     NOCONN,
